@@ -246,9 +246,14 @@ FinalizeF(w, cs) ==
         ELSE IF ~CdFits(r.w.files) THEN Er([r.w EXCEPT !.dead = TRUE, !.pos = -1])
         ELSE LET w1 == r.w
                  cds == CdSize(w1.files)
-                 z   == IF NeedZ64End(Len(w1.files), cds, w1.pos) THEN Z64Rec + Z64Loc ELSE 0
-             IN Ok([w1 EXCEPT !.pos = w1.pos + cds + z + EOCDSize + w1.comment.len, !.comp = Closed,
-                              !.fin = TRUE, !.cdstart = w1.pos])
+                 tail(at) == (IF NeedZ64End(Len(w1.files), cds, at) THEN Z64Rec + Z64Loc ELSE 0) + EOCDSize + w1.comment.len
+                 \* appending: the re-emitted directory + end records must not end before the archive they overwrite did
+                 \* (the old end record would otherwise survive behind the new one); the directory is moved up by a gap
+                 end0 == w1.pos + cds + tail(w1.pos)
+                 gap == IF end0 < w1.baselen THEN w1.baselen - end0 ELSE 0
+                 at == w1.pos + gap
+             IN Ok([w1 EXCEPT !.pos = at + cds + tail(at), !.comp = Closed, !.fin = TRUE, !.cdstart = at,
+                              !.gaps = IF gap > 0 THEN Append(w1.gaps, [from |-> w1.pos, to |-> at]) ELSE w1.gaps])
 
 (***************************************************************************)
 (* The state machine.  `res` is the result class of the last call.         *)
